@@ -27,7 +27,7 @@ use std::time::Duration;
 pub static INFO: PropInfo = PropInfo {
     id: "C17",
     level: "fault_enumeration",
-    rule: "two kinds of executions. (a) TAMPER (enumerated; exhaustive=true refers to this: for every sample datagram ALL single-bit positions and ALL truncation lengths 0..len-1 are presented): per run one genuine sample of every datagram kind (request, challenge, response, keep-alive both directions, payload both directions with a seeded length 0..1300, denied, disconnect both directions) is captured from a live handshake/session and every modification is presented to the endpoint in exactly the state in which the genuine datagram is accepted (proved afterwards by presenting the genuine one and seeing its effect); each must produce no result and leave the observable snapshot identical (server: client ids, addresses, user data, time since last packet, half-open set; client: state, reason, time since last packet); for the unsealed request the prefix byte's unused high nibble is excluded. Every sealed sample must also fail to open under another key and under another protocol id (crate codec) and a request must be ignored by servers with another private key / protocol id. Token: every single-bit flip of the 1024 sealed bytes, the protocol id and the expiry of a serialized ConnectToken goes through ConnectToken::read -> NetcodeClient::new -> update -> server.process_packet and through the private-token decoder and must yield neither a decoded token nor a reply nor a half-open entry. (b) NONCE TABLE: honest multi-client histories against one server (1-3 slots, 3-7 clients, seeded loss and duplication so that requests are retried and re-challenged, denials on a full server, keep-alives, payloads both ways, disconnects by either side, reconnects with fresh tokens, fail-over to a second server address, tokens listing two addresses of the same server so that a client denied or unanswered at the first is admitted at the second with the same token - the server side of a token stops being recorded once the server opens a second session for it): every datagram returned by any NetcodeServer / NetcodeClient call is attributed to a key by opening it with the token keys the harness minted, and entered as (key, sequence from the prefix) -> bytes; two different byte strings under one (key, sequence) refute the property, as do two different challenge blobs with one token_sequence; every recorded datagram is also opened with an independent ChaCha20-Poly1305 (netcode 1.02 framing: nonce = 4 zero bytes || LE sequence) to establish the nonce it was REALLY sealed with (normally that of its announced sequence, otherwise searched among truncations of it and the other sequences of that key) and entered in a second ledger keyed by (key, real nonce). One evaluation = one presented modification (a) or one recorded datagram (b); non-trivial = oracle evaluated on it; distinct = (sample hash, modification) resp. (history seed, datagram hash).",
+    rule: "two kinds of executions. (a) TAMPER (enumerated; exhaustive=true refers to this: for every sample datagram ALL single-bit positions and ALL truncation lengths 0..len-1 are presented): per run one genuine sample of every datagram kind (request, challenge, response, keep-alive both directions, payload both directions with a seeded length 0..1300, denied, disconnect both directions) is captured from a live handshake/session and every modification is presented to the endpoint in exactly the state in which the genuine datagram is accepted (proved afterwards by presenting the genuine one and seeing its effect); each must produce no result and leave the observable snapshot identical (server: client ids, addresses, user data, time since last packet, half-open set; client: state, reason, time since last packet); for the unsealed request the prefix byte's unused high nibble is excluded. Every sealed sample must also fail to open under another key and under another protocol id (crate codec) and a request must be ignored by servers with another private key / protocol id. Token: every single-bit flip of the 1024 sealed bytes, the protocol id and the expiry of a serialized ConnectToken goes through ConnectToken::read -> NetcodeClient::new -> update -> server.process_packet and through the private-token decoder and must yield neither a decoded token nor a reply nor a half-open entry. (b) NONCE TABLE: honest multi-client histories against one server (1-3 slots, 3-7 clients, seeded loss and duplication so that requests are retried and re-challenged, denials on a full server, keep-alives, payloads both ways, disconnects by either side, reconnects with fresh tokens, fail-over to a second server address, tokens listing two addresses of the same server so that a client denied or unanswered at the first is admitted at the second with the same token - the server side of a token stops being recorded once the server opens a second session for it): every datagram returned by any NetcodeServer / NetcodeClient call is attributed to a key by opening it with the token keys the harness minted, and entered as (key, sequence from the prefix) -> bytes; two different byte strings under one (key, sequence) refute the property, as do two different challenge blobs with one token_sequence; every recorded datagram is also opened with an independent ChaCha20-Poly1305 (netcode 1.02 framing: nonce = 4 zero bytes || LE sequence) to establish the nonce it was REALLY sealed with (normally that of its announced sequence, otherwise searched among truncations of it and the other sequences of that key) and entered in a second ledger keyed by (key bytes, real nonce) - both directions and all sessions share it, so equal keys in two roles are a reuse; a third of the parties hold a token of the library's own generator. One evaluation = one presented modification (a) or one recorded datagram (b); non-trivial = oracle evaluated on it; distinct = (sample hash, modification) resp. (history seed, datagram hash).",
     assumptions: &[
         "ChaCha20-Poly1305 / XChaCha20-Poly1305 themselves are not under test; the nonce is assumed to be the sequence number announced in the prefix (that it really is bound is what the bit flips of the sequence bytes test)",
         "one connect token = one connection attempt and the session that follows; reconnects use fresh tokens (reuse of a token for a second session is outside the statement)",
@@ -649,7 +649,9 @@ struct Table {
     blobs: HashMap<u64, Vec<u8>>,
     log: Vec<Value>,
     /// (party, emitted by server?) -> sequence whose standard nonce really opens the datagram -> (bytes, announced sequence)
-    real: HashMap<(usize, bool), HashMap<u64, (Vec<u8>, u64)>>,
+    /// keyed by the key itself: if both directions of a session (or two sessions) were given the same key, their
+    /// datagrams share one nonce space
+    real: HashMap<[u8; 32], HashMap<u64, (Vec<u8>, u64)>>,
     /// datagrams that open under no candidate nonce: the ledger cannot vouch for them
     unverifiable: u64,
 }
@@ -716,7 +718,7 @@ impl Table {
                 }
             }
         };
-        let m = self.real.entry((party, server)).or_default();
+        let m = self.real.entry(*key).or_default();
         match m.get(&nonce_seq) {
             None => {
                 m.insert(nonce_seq, (bytes.to_vec(), seq));
@@ -807,7 +809,12 @@ fn history_run(ctx: &Ctx, out: &mut Outcome, run_seed: u64, r: &mut Rng) {
                 vec![srv.addrs[r.usize_below(srv.addrs.len())]]
             };
             let timeout = if failover { 1 } else if both { *r.pick(&[1i32, 2]) } else { *r.pick(&[2i32, 5, 15]) };
-            let m = nsim::mint(r, srv.now.as_secs(), protocol, 600, id, timeout, &addrs, None, &srv.key);
+            // a third of the parties hold a token of the library's own generator (its keys are the library's choice)
+            let lib = if r.chance(1, 3) { nsim::mint_lib(srv.now.as_secs(), protocol, 600, id, timeout, &addrs, None, &srv.key) } else { None };
+            if lib.is_some() {
+                out.count("hist.parties_with_library_generated_token");
+            }
+            let m = lib.unwrap_or_else(|| nsim::mint(r, srv.now.as_secs(), protocol, 600, id, timeout, &addrs, None, &srv.key));
             match Cli::new(srv.now, m, addr) {
                 Ok(cli) => {
                     if recon {
